@@ -45,6 +45,14 @@ CLAIMED["C20"] = dict(cat="exploration",
    text="Untidy-but-valid generated models (dangling call targets, dangling/one-segment/cyclic/recursive type references, empty apps, call cycles, FK cycles, pass-through views) x 21 command/option sets run with the sysl binary built from the working tree; oracle: terminates, no Go runtime crash on stderr, non-zero exit carries a message; crashes keyed by command and first repository frame so known sites do not mask new ones.",
    note="sysl diagram needs headless Chrome (absent offline) and is not exercised; import/transform commands are covered by C11/C17 at library level",
    technique="property-based CLI matrix (rapid) with crash-signature keyed findings")
+CLAIMED["C10"] = dict(cat="exploration",
+   text="Well-typed view bodies drawn from an explicit table of supported (operator, left kind, right kind) triples, with reuse templates for every purity-sensitive operator (concat, union, where, flatten, nested transforms with shadowing scope variables, helper calls); the rendered view is compiled by the real parser and evaluated by eval.EvaluateView in a worker subprocess (evaluation failures exit the process) and compared with an independent reference interpreter with immutable values and lexical scoping; every let/parameter is re-exported so a changed binding shows; each case is evaluated twice (thorough: also in a fresh worker). Depth<=2 expressions over a 16-value pool are enumerated exhaustively in the thorough tier.",
+   note="trusts the reference interpreter and the triple table copied from the statement's inventory and the dispatch tables' keys; behaviours the language leaves unspecified (bare '. -> (...)', inner let overwriting the flat scope, nested-set order in de-duplication) are kept out of the domain and listed in the rule",
+   technique="property-based testing against a reference interpreter (differential), bounded-exhaustive enumeration at depth<=2, purity via re-exported bindings")
+CLAIMED["C18"] = dict(cat="exploration",
+   text="A recording afero.Fs sits under syslutil.ChrootFs; every path of <=5 (quick) / <=7 (thorough, exhaustive across shards) segments over {'', '.', '..', 'a', 'a.b', 'a b'}, relative and absolute, x 4 roots x all 13 operations (both Rename arguments) is decided by a segment-stack reference resolver: outside => error and no call reaches the recorder; inside => exactly the canonical path. Plus rapid-drawn longer paths and import statements compiled through loader's ChrootFs wrapping.",
+   note="trusts the reference resolver (no filepath calls); remote (//host/...) imports do not go through the project filesystem and are out of scope",
+   technique="exhaustive enumeration + property-based generation against a reference path resolver with a recording filesystem")
 NOT_YET = {}
 def main():
     checks = []
